@@ -28,6 +28,7 @@ import (
 	"errors"
 	"fmt"
 	"io"
+	"os"
 	"sort"
 	"strings"
 	"testing"
@@ -52,10 +53,11 @@ type vfoScn struct {
 	BC       int
 	Cmds     []vfoCmd
 	During   []vfdoubles.Sched
-	Cross    bool // transactional stream with a batch spanning two nodes
-	NoFollow bool // plain mode with handleMoveErr/handleAskErr switched off in the configuration
+	Cross    bool   // transactional stream with a batch spanning two nodes
+	NoFollow bool   // plain mode with handleMoveErr/handleAskErr switched off in the configuration
 	Fault    string // er | cb | ac injected at request FaultAt ("" = none)
 	FaultAt  int
+	CpRetry  bool // resumable run whose FIRST checkpoint flush fails on the checkpoint key's redirect and is retried
 }
 
 func vfoEncode(args ...string) []byte {
@@ -86,8 +88,20 @@ func vfoRun(scn *vfoScn) (*vfoResult, error) {
 	// serve the client's initial CLUSTER SLOTS, park every later (asynchronous)
 	// refresh: the client's map stays what it read at start, so redirects are
 	// always needed once a slot has moved (and D22 cannot interfere)
-	d.EnablePark(1)
+	if !scn.CpRetry {
+		d.EnablePark(1)
+	}
 	sc := append([]vfdoubles.Sched(nil), scn.During...)
+	cpSlot := vfdoubles.ClusterSlot("vfcp")
+	cpOwner := cpSlot * 3 / 16384
+	cpNew := (cpOwner + 1) % 3
+	if scn.CpRetry {
+		// the checkpoint key's slot has moved to a node that is unreachable during the first
+		// attempt (handleMove fails -> ErrMove -> the sender sleeps 1 s and re-sends the queue);
+		// the client's asynchronous refresh is NOT parked here, the node is back before the retry
+		sc = append(sc, vfdoubles.Sched{At: 0, Ev: vfdoubles.MigEv{Kind: "v", Slot: cpSlot, Dst: cpNew}},
+			vfdoubles.Sched{At: 0, Ev: vfdoubles.MigEv{Kind: "x", Dst: cpNew}})
+	}
 	if scn.Fault != "" {
 		sc = append(sc, vfdoubles.Sched{At: scn.FaultAt, Ev: vfdoubles.MigEv{Kind: "F", Key: scn.Fault}})
 	}
@@ -96,11 +110,14 @@ func vfoRun(scn *vfoScn) (*vfoResult, error) {
 
 	cfg := RedisOutputConfig{
 		InputName: "vfc19", CheckpointName: "vfcp", RunId: "rid", CanTransaction: scn.Txn,
-		EnableResumeFromBreakPoint: false, TargetDb: -1,
+		EnableResumeFromBreakPoint: scn.CpRetry, TargetDb: -1,
 		BatchCmdCount: uint(scn.BC), BatchBufferSize: 1 << 30,
 		BatchTicker: 15 * time.Millisecond, KeepaliveTicker: time.Hour, UpdateCheckpointTicker: time.Hour,
 		ReplayPipeline: scn.Pipeline, ReplayRdbParallel: 1,
 		Stats: config.OutputStats{DisableLog: true},
+	}
+	if scn.CpRetry {
+		cfg.UpdateCheckpointTicker = 25 * time.Millisecond
 	}
 	cfg.Redis.Type = config.RedisTypeCluster
 	cfg.Redis.Otype = config.RedisTypeCluster
@@ -121,6 +138,24 @@ func vfoRun(scn *vfoScn) (*vfoResult, error) {
 	go func() { done <- ro.sendAof(ctx, "rid", bufio.NewReaderSize(pr, 4096), 0, -1) }()
 	go func() { pw.Write(stream) }()
 
+	if scn.CpRetry {
+		go func() {
+			// bring the node back once the first attempt has been answered MOVED to it,
+			// well inside the sender's 1 s back-off
+			want := fmt.Sprintf(":m%d", cpNew)
+			for i := 0; i < 20000; i++ {
+				tr, _, _ := d.Snapshot()
+				for _, e := range tr {
+					if strings.HasPrefix(e, "q:") && strings.HasSuffix(e, want) {
+						time.Sleep(300 * time.Millisecond)
+						d.Apply(vfdoubles.MigEv{Kind: "u", Dst: cpNew})
+						return
+					}
+				}
+				time.Sleep(500 * time.Microsecond)
+			}
+		}()
+	}
 	res := &vfoResult{}
 	// No real-time decision: the input is closed only when every command has
 	// EXECUTED (so nothing can be reported lost because of when the input ended),
@@ -130,7 +165,20 @@ func vfoRun(scn *vfoScn) (*vfoResult, error) {
 	dl := time.Now().Add(12 * time.Second)
 	for !finished {
 		if d.AllExecuted(ids) {
-			break
+			if !scn.CpRetry {
+				break
+			}
+			// resumable run: also wait for the checkpoint offset to be stored
+			_, ex, _ := d.Snapshot()
+			stored := false
+			for _, e := range ex {
+				if len(e.Keys) == 1 && e.Keys[0] == "vfcp" && strings.HasSuffix(e.Field, "_offset") {
+					stored = true
+				}
+			}
+			if stored {
+				break
+			}
 		}
 		select {
 		case res.Err = <-done:
@@ -172,6 +220,12 @@ func vfoRun(scn *vfoScn) (*vfoResult, error) {
 	}
 	res.Trace, res.Execs, _ = d.Snapshot()
 	res.Arrivals = d.Arrivals()
+	if os.Getenv("VERIF_DEBUG") != "" && scn.CpRetry {
+		fmt.Printf("VFDEBUG cp-retry err=%v final=%s\n  trace=%s\n", res.Err, res.Final, strings.Join(res.Trace, " "))
+		for _, e := range res.Execs {
+			fmt.Printf("  exec node=%d id=%d keys=%v field=%s\n", e.Node, e.ID, e.Keys, e.Field)
+		}
+	}
 	return res, nil
 }
 
@@ -243,6 +297,19 @@ func vfoMonitor(scn *vfoScn, res *vfoResult) []vfoViol {
 			}
 		}
 	}
+	// resumable run: an offset stored in the checkpoint hash is useless (run id "?" on the next
+	// start) unless the run id / version fields were stored for this run before it
+	hasRunID := false
+	for _, e := range res.Execs {
+		if len(e.Keys) == 1 && e.Keys[0] == "vfcp" {
+			if strings.HasSuffix(e.Field, "_runid") {
+				hasRunID = true
+			} else if strings.HasSuffix(e.Field, "_offset") && !hasRunID {
+				out = append(out, vfoViol{"checkpoint-offset-without-runid", "hset vfcp " + e.Field + " took effect, but the run id / version fields of this run were never stored (the failed first attempt carried them, the re-sent batch did not)"})
+				break
+			}
+		}
+	}
 	if res.Stalled {
 		out = append(out, vfoViol{"sender-stalled", fmt.Sprintf("sendAof neither finished the stream nor returned (err=%v)", res.Err)})
 	}
@@ -271,6 +338,8 @@ func vfoGen(r *vfutil.Rand, name string, force string) *vfoScn {
 		scn.Txn, scn.Pipeline = true, true
 	case "txn-cross":
 		scn.Txn, scn.Cross, scn.Pipeline = true, true, r.Bool()
+	case "cp-retry":
+		scn.CpRetry = true
 	case "nofollow-block":
 		scn.NoFollow = true
 	case "nofollow-pipe":
@@ -290,7 +359,10 @@ func vfoGen(r *vfutil.Rand, name string, force string) *vfoScn {
 		}
 	}
 	var tags []string
-	if scn.Txn {
+	if scn.CpRetry {
+		tags = vfoTagsOnNode(vfdoubles.ClusterSlot("vfcp")*3/16384, 2, name)
+		scn.BC = 50
+	} else if scn.Txn {
 		tags = vfoTagsOnNode(r.Intn(3), r.Range(2, 3), name)
 	} else {
 		for t := 0; t < r.Range(2, 4); t++ {
@@ -330,8 +402,8 @@ func vfoGen(r *vfutil.Rand, name string, force string) *vfoScn {
 		}
 		return scn
 	}
-	if scn.Fault != "" {
-		return scn // faults on a stable cluster
+	if scn.Fault != "" || scn.CpRetry {
+		return scn // faults on a stable cluster; cp-retry has its own schedule
 	}
 	// migration schedule by request count; a slot never returns to a node it left
 	nev := r.Range(1, 3)
@@ -488,6 +560,12 @@ func TestVerifC19Out(t *testing.T) {
 	for _, f := range []string{"txn-block", "txn-block", "txn-block", "txn-pipe", "txn-pipe", "txn-cross", "txn-cross",
 		"nofollow-block", "nofollow-pipe", "fault", "fault", "fault", "fault", "fault", "fault"} {
 		vfoOne(t, s, idx, vfoGen(r.Fork(), fmt.Sprintf("f%d", idx), f))
+		idx++
+	}
+	if os.Getenv("VERIF_C19_CPRETRY") != "" {
+		// defect hypothesis D24 (checkpoint run-id fields lost when the first checkpoint flush is
+		// re-sent): enabled by default once syncer/output.go is repaired
+		vfoOne(t, s, idx, vfoGen(r.Fork(), fmt.Sprintf("f%d", idx), "cp-retry"))
 		idx++
 	}
 	n := vfutil.Scale(60, 4000)
